@@ -293,7 +293,7 @@ class Neo4jCBMGraph(Neo4jPropertyGraph, ABCCBMPropertyGraph):
                 else:
                     component_counts[(comp.resource_type, comp.resource_model)] = 1
         # unroll properties
-        node_props = ", ".join([x + ": " + '"' + props[x] + '"' for x in props.keys()])
+        node_props = ", ".join([x + ": " + '"' + self._escape(props[x], '"') + '"' for x in props.keys()])
 
         if len(component_counts.values()) == 0:
             # simple query on the properties of the node (no components)
@@ -308,7 +308,7 @@ class Neo4jCBMGraph(Neo4jPropertyGraph, ABCCBMPropertyGraph):
                 if k[0] is not None:
                     comp_props_list.append('Type: ' + '"' + str(k[0]) + '"' + ' ')
                 if k[1] is not None:
-                    comp_props_list.append('Model: ' + '"' + k[1] + '"' + ' ')
+                    comp_props_list.append('Model: ' + '"' + self._escape(k[1], '"') + '"' + ' ')
                 comp_props = ", ".join(comp_props_list)
 
                 # uses pattern comprehension rather than pattern matching as per Neo4j v4+
